@@ -287,9 +287,11 @@ pub fn run_property(prop: &str, tier: &str, units: Vec<Unit>, threads: usize, on
                 // thorough tier: deep bounds, but each unit gets a wall-clock budget; exploration is lowest-cost-first, so a
                 // unit that runs out of budget reports the deviation cost up to which it is complete
                 let mut bounds = bounds.clone();
-                if tier == "thorough" && bounds.d > 0 {
+                if tier == "thorough" {
                     let budget: u64 = std::env::var("VERIF_THOROUGH_UNIT_WALL").ok().and_then(|s| s.parse().ok()).unwrap_or(120);
-                    bounds.max_wall = bounds.max_wall.min(std::time::Duration::from_secs(budget));
+                    // sequence enumerations (d = 0) are not ordered by cost: a cut one is simply incomplete (its shallower
+                    // siblings are separate units and complete); they get twice the budget
+                    bounds.max_wall = bounds.max_wall.min(std::time::Duration::from_secs(if bounds.d > 0 { budget } else { 2 * budget }));
                 }
                 let bounds = &bounds;
                 let r = explore(&u.name, bounds, run.clone(), &is_known, threads);
